@@ -78,10 +78,11 @@ Qed.
 
 Theorem roundtrip o m :
   abs o = Some m -> mem_cls (class_of o) conforming_encode = true -> conforming_decode m = true ->
-  exists b o' d, py_pdu o = Ok b /\ py_decode (msg_is_request m) b = Ok o' /\ abs o' = Some d /\ msg_matches m d = true.
+  exists b o' d, py_pdu o = Ok b /\ py_decode (msg_is_request m) b = Ok o' /\ class_of o' = spec_class m /\
+                 abs o' = Some d /\ msg_matches m d = true.
 Proof.
   intros Ha Hc Hd. destruct (abs_inv o m Ha) as [_ Hwf].
-  destruct (decode_conforms m Hwf Hd) as (o' & d & H1 & H2 & H3).
+  destruct (decode_conforms m Hwf Hd) as (o' & d & H1 & H0 & H2 & H3).
   exists (spec_pdu m), o', d. repeat split; try assumption. now apply encode_conforms.
 Qed.
 
@@ -198,7 +199,7 @@ Proof.
       eexists. split; [exact H1|exact H2].
     + destruct (reencode_bits ReadDiscreteInputsResponse inputs MReadDiscreteRsp (or_intror (conj eq_refl eq_refl)) Hwf) as [H1 H2].
       eexists. split; [exact H1|exact H2].
-  - destruct (decode_conforms m Hwf Hc) as (o' & d & H1 & H2 & H3).
+  - destruct (decode_conforms m Hwf Hc) as (o' & d & H1 & _ & H2 & H3).
     pose proof (matches_eq m d Hc Eb H3) as ->.
     exists o'. split; [exact H1|]. apply encode_conforms; [|exact H2].
     now apply (abs_class_conforming o' m).
